@@ -36,11 +36,32 @@ const (
 	psStayer                   // manual; subscribed before the senders start until after the last Send (the anchor)
 	psHolder                   // manual holder of k subscriptions: Add(k); never receives; withdraws all at once, Add(-k), at its timer
 	psNewcomer                 // manual; spins until Add(0) reads 0, then Add(1) and receive/Wait cycles with a short receive timeout
+	psIterPanic                // iterator; the range-loop body PANICS after `quota` receipts (recovered around the loop)
+	psIterGoexit               // iterator; the range-loop body calls runtime.Goexit after `quota` receipts (loop on its own goroutine)
 	psNStyles
 )
 
+// psIsIter: styles that subscribe through SubscribeContext
+func psIsIter(style int) bool {
+	return (style >= psIterCancel && style <= psIterCancelThenRun) || style == psIterPanic || style == psIterGoexit
+}
+
+// psConsumerPanic is the value a consumer's loop body panics with (an application failure, not a library panic)
+type psConsumerPanic struct{}
+
+// recoverConsumer swallows the consumer's own panic and records any other one
+func (r *psRun) recoverConsumer(who string) {
+	if e := recover(); e != nil {
+		if _, own := e.(psConsumerPanic); !own {
+			r.mu.Lock()
+			r.panics = append(r.panics, fmt.Sprintf("%s: %.120v", who, e))
+			r.mu.Unlock()
+		}
+	}
+}
+
 var psStyleName = [psNStyles]string{"manual_quota", "manual_timer", "iter_cancel", "iter_break", "iter_never_run",
-	"iter_cancel_then_run", "stayer", "holder", "newcomer"}
+	"iter_cancel_then_run", "stayer", "holder", "newcomer", "iter_panic", "iter_goexit"}
 
 type psSubPlan struct {
 	style   int
@@ -245,7 +266,7 @@ func (r *psRun) iterator(s *psSub) {
 	finished := make(chan struct{})
 	cancelled := make(chan struct{})
 	var timer <-chan time.Time
-	if s.plan.style != psIterBreak {
+	if s.plan.style != psIterBreak && s.plan.style != psIterPanic && s.plan.style != psIterGoexit {
 		timer = r.after(s.plan.leaveAt)
 		if timer == nil {
 			timer = time.After(0)
@@ -276,6 +297,33 @@ func (r *psRun) iterator(s *psSub) {
 		for v := range seq {
 			r.record(s, v, false)
 		}
+		s.state.Store(5)
+	case psIterPanic, psIterGoexit:
+		// the consumer fails inside the loop body: the iterator is unwound by a panic / by runtime.Goexit and must still
+		// withdraw the subscription. The loop runs on its own goroutine, joined here.
+		inner := make(chan struct{})
+		s.state.Store(2)
+		go func() {
+			defer close(inner)
+			defer r.recoverConsumer(who)
+			n := 0
+			for v := range seq {
+				r.record(s, v, false)
+				n++
+				if s.plan.proc > 0 {
+					time.Sleep(s.plan.proc)
+				}
+				if n >= s.plan.quota {
+					s.markUnInv()
+					if s.plan.style == psIterPanic {
+						panic(psConsumerPanic{})
+					}
+					runtime.Goexit()
+				}
+			}
+		}()
+		<-inner
+		s.unRet.Store(int64(tick()))
 		s.state.Store(5)
 	default:
 		n := 0
@@ -403,7 +451,7 @@ func psCase(h *hctx, id string, plan psPlan) bool {
 		r.subs = append(r.subs, s)
 	}
 	start := func(s *psSub) {
-		if s.plan.style >= psIterCancel && s.plan.style <= psIterCancelThenRun {
+		if psIsIter(s.plan.style) {
 			go r.iterator(s)
 		} else {
 			go r.manual(s)
@@ -674,7 +722,7 @@ func (r *psRun) eval(hung bool) {
 	nit, mid, before, conc := 0, 0, 0, 0
 	for _, s := range r.subs {
 		h.count("style_"+psStyleName[s.plan.style], 1)
-		if s.plan.style >= psIterCancel && s.plan.style <= psIterCancelThenRun {
+		if psIsIter(s.plan.style) {
 			nit++
 		}
 		u := int(s.unInv.Load())
@@ -775,6 +823,9 @@ func psRandomPlan(rng *rand.Rand) psPlan {
 			sp.joinAt = -1
 		} else {
 			sp.style = rng.Intn(psStayer) // one of the six leaving styles ...
+			if rng.Intn(5) == 0 {
+				sp.style = psIterPanic + rng.Intn(2) // ... or an iterator whose consumer panics / Goexits in the loop body
+			}
 			if rng.Intn(12) == 0 {
 				sp.style = psHolder // ... or a holder of several subscriptions that never receives
 				sp.k = 2 + rng.Intn(63)
@@ -1009,23 +1060,28 @@ func (c *psCtx) phase2() int {
 }
 
 const (
-	psTPIterInWindow      = iota // phase 1; run the iterator (must return without yielding); phase 2
-	psTPIterFirst                // the iterator is running when phase 1 happens; phase 2 afterwards
-	psTPIterFirstFast            // the iterator is running; phase 1 and phase 2 back to back
-	psTPIterAfter                // phase 1; phase 2; then the iterator is run
-	psTPNeverRun                 // phase 1; phase 2; the iterator is never run
-	psTPBreakThenCancel          // the iterator receives one value and breaks; then phase 1; phase 2
-	psTPBreakInWindow            // the iterator receives one value; phase 1; it breaks; phase 2
-	psTPNilYield                 // yield == nil before phase 1 (documented panic; must still unsubscribe); then both phases
-	psTPNilYieldInWindow         // phase 1; yield == nil; phase 2
-	psTPNilYieldAfter            // phase 1; phase 2; yield == nil
-	psTPSendBlockedWindow        // a Send is delivering to the not-yet-run iterator; phase 1; run the iterator; phase 2
-	psTPSendBlockedNever         // a Send is delivering to the never-run iterator; phase 1; phase 2 (the AfterFunc absorbs the copy)
+	psTPIterInWindow       = iota // phase 1; run the iterator (must return without yielding); phase 2
+	psTPIterFirst                 // the iterator is running when phase 1 happens; phase 2 afterwards
+	psTPIterFirstFast             // the iterator is running; phase 1 and phase 2 back to back
+	psTPIterAfter                 // phase 1; phase 2; then the iterator is run
+	psTPNeverRun                  // phase 1; phase 2; the iterator is never run
+	psTPBreakThenCancel           // the iterator receives one value and breaks; then phase 1; phase 2
+	psTPBreakInWindow             // the iterator receives one value; phase 1; it breaks; phase 2
+	psTPNilYield                  // yield == nil before phase 1 (documented panic; must still unsubscribe); then both phases
+	psTPNilYieldInWindow          // phase 1; yield == nil; phase 2
+	psTPNilYieldAfter             // phase 1; phase 2; yield == nil
+	psTPSendBlockedWindow         // a Send is delivering to the not-yet-run iterator; phase 1; run the iterator; phase 2
+	psTPSendBlockedNever          // a Send is delivering to the never-run iterator; phase 1; phase 2 (the AfterFunc absorbs the copy)
+	psTPPanicBody                 // the loop body panics after the first value (recovered around the loop); then phase 1; phase 2
+	psTPGoexitBody                // the loop body calls runtime.Goexit after the first value; then phase 1; phase 2
+	psTPPanicBodyInWindow         // the iterator receives one value; phase 1; the loop body panics; phase 2
+	psTPGoexitBodyInWindow        // the iterator receives one value; phase 1; the loop body calls runtime.Goexit; phase 2
 	psTPN
 )
 
 var psTPName = [psTPN]string{"iter_in_window", "iter_first", "iter_first_fast", "iter_after", "never_run", "break_then_cancel",
-	"break_in_window", "nil_yield", "nil_yield_in_window", "nil_yield_after", "send_blocked_window", "send_blocked_never"}
+	"break_in_window", "nil_yield", "nil_yield_in_window", "nil_yield_after", "send_blocked_window", "send_blocked_never",
+	"panic_body", "goexit_body", "panic_body_in_window", "goexit_body_in_window"}
 
 // psTwoPhase runs one SubscribeContext life cycle on a two-phase context, in the given order of events, optionally next to a
 // standing manual subscriber, and checks: the iterator returns (without yielding once the context reports cancelled), no
@@ -1095,16 +1151,23 @@ func psTwoPhase(h *hctx, id string, variant int, withOther bool) bool {
 	iterDone := make(chan struct{})
 	gate := make(chan struct{})
 	gotOne := make(chan struct{}, 8)
+	exitMode := 0 // how the loop body leaves at breakAt: 0 break | 1 panic | 2 runtime.Goexit
 	runIter := func(breakAt int, gated bool) {
 		go func() {
 			defer close(iterDone)
-			defer r.guard("iterator (two-phase context)")
+			defer r.recoverConsumer("iterator (two-phase context)")
 			for range seq {
 				n := int(yields.Add(1))
 				gotOne <- struct{}{}
 				if breakAt > 0 && n >= breakAt {
 					if gated {
 						<-gate
+					}
+					switch exitMode {
+					case 1:
+						panic(psConsumerPanic{})
+					case 2:
+						runtime.Goexit()
 					}
 					break
 				}
@@ -1178,8 +1241,15 @@ func psTwoPhase(h *hctx, id string, variant int, withOther bool) bool {
 		ctx.phase1()
 		settle()
 		ctx.phase2()
-	case psTPBreakThenCancel, psTPBreakInWindow:
-		runIter(1, variant == psTPBreakInWindow)
+	case psTPBreakThenCancel, psTPBreakInWindow, psTPPanicBody, psTPGoexitBody, psTPPanicBodyInWindow, psTPGoexitBodyInWindow:
+		inWindow := variant == psTPBreakInWindow || variant == psTPPanicBodyInWindow || variant == psTPGoexitBodyInWindow
+		switch variant {
+		case psTPPanicBody, psTPPanicBodyInWindow:
+			exitMode = 1
+		case psTPGoexitBody, psTPGoexitBodyInWindow:
+			exitMode = 2
+		}
+		runIter(1, inWindow)
 		settle()
 		goSend(7001)
 		select {
@@ -1188,12 +1258,12 @@ func psTwoPhase(h *hctx, id string, variant int, withOther bool) bool {
 		case <-time.After(deadline):
 			return hung("delivery to the running iterator")
 		}
-		if variant == psTPBreakInWindow {
+		if inWindow {
 			ctx.phase1()
 			close(gate)
 		}
 		if !waitIter() {
-			return hung("the iterator breaking out")
+			return hung("the iterator being left by break / panic / Goexit in the loop body")
 		}
 		if !waitSend("Send to the iterator"+map[bool]string{true: " and the standing subscriber", false: ""}[withOther], 1+stay) {
 			return hung("Send to the running iterator")
